@@ -704,6 +704,122 @@ def _fold_enum_labels(ctx: Ctx):
     ctx.floor("enumeration label cases folded", n, 6)
 
 
+def _fold_composite_labels(ctx: Ctx):
+    """The composite generators (literal / structure / array / tuple / map / or), folded (E5) on small synthetic types
+    built from base types: every (label, value) pair they produce is compared with a strict validity oracle for that
+    type (declared properties only, required ones present, ranges).  Decides that the way values are *assembled* --
+    names zipped with values, omitted optional properties, element lists -- keeps the label true; the base tables
+    themselves are decided by rule (b)."""
+    from ..microeval import Interp, Record, Raised
+    try:
+        tree = ast.parse(ctx.src.text(P_TD))
+    except SyntaxError as e:
+        raise AnalysisError(f"{P_TD}: {e}")
+
+    def base(n):
+        return Record("BaseType", {"kind": "base", "name": n})
+
+    def prop(n, t, optional=None):
+        return Record("Property", {"name": n, "type": t, "optional": optional, "documentation": None, "since": None,
+                                   "proposed": None, "deprecated": None})
+
+    def literal(*props):
+        return Record("LiteralType", {"kind": "literal", "name": None,
+                                      "value": Record("LiteralValue", {"properties": list(props), "documentation": None,
+                                                                       "since": None, "proposed": None, "deprecated": None})})
+
+    def ref(n):
+        return Record("ReferenceType", {"kind": "reference", "name": n})
+    S = Record("Structure", {"name": "S", "properties": [prop("p", base("string")), prop("q", base("integer"), True),
+                                                         prop("r", base("boolean"))],
+                             "extends": [], "mixins": [], "documentation": None, "since": None, "proposed": None, "deprecated": None})
+    lit1 = literal(prop("a", base("string"), True), prop("b", base("integer")), prop("c", base("boolean")))
+    lit2 = literal(prop("a", base("string")), prop("b", base("uinteger"), True))
+    cases = [
+        ("literal{a?:string,b:integer,c:boolean}", lit1),
+        ("literal{a:string,b?:uinteger}", lit2),
+        ("reference S{p:string,q?:integer,r:boolean}", ref("S")),
+        ("array<literal{a:string,b?:uinteger}>", Record("ArrayType", {"kind": "array", "element": lit2})),
+        ("or[literal{a?:string,b:integer,c:boolean}, null]", Record("OrType", {"kind": "or", "items": [lit1, base("null")]})),
+        ("tuple[integer,string]", Record("TupleType", {"kind": "tuple", "items": [base("integer"), base("string")]})),
+        ("map<string,uinteger>", Record("MapType", {"kind": "map", "key": base("string"), "value": base("uinteger")})),
+        ("array<reference S>", Record("ArrayType", {"kind": "array", "element": ref("S")})),
+    ]
+
+    def fields(t):
+        if t.fields["kind"] == "literal":
+            return t.fields["value"].fields["properties"]
+        return S.fields["properties"]
+
+    def valid(v, t):
+        k = t.fields["kind"]
+        if k == "base":
+            n = t.fields["name"]
+            if n in ("string", "URI", "DocumentUri", "RegExp"):
+                return isinstance(v, str)
+            if n == "integer":
+                return oracle_int(v, -(2 ** 31), 2 ** 31 - 1)
+            if n == "uinteger":
+                return oracle_int(v, 0, 2 ** 31 - 1)
+            if n == "decimal":
+                return isinstance(v, (int, float)) and not isinstance(v, bool)
+            if n == "boolean":
+                return isinstance(v, bool)
+            if n == "null":
+                return v is None
+            return False
+        if k == "array":
+            return isinstance(v, (list, tuple)) and all(valid(x, t.fields["element"]) for x in v)
+        if k == "tuple":
+            its = t.fields["items"]
+            return isinstance(v, (list, tuple)) and len(v) == len(its) and all(valid(x, y) for x, y in zip(v, its))
+        if k == "map":
+            return isinstance(v, dict) and all(valid(a, t.fields["key"]) and valid(b, t.fields["value"]) for a, b in v.items())
+        if k == "or":
+            return any(valid(v, x) for x in t.fields["items"])
+        if k in ("literal", "reference"):
+            if not isinstance(v, dict):
+                return False
+            decl = {p_.fields["name"]: p_ for p_ in fields(t)}
+            if any(key not in decl for key in v):
+                return False
+            for n_, p_ in decl.items():
+                if n_ not in v:
+                    if not p_.fields["optional"]:
+                        return False
+                    continue
+                if not valid(v[n_], p_.fields["type"]):
+                    return False
+            return True
+        return False
+
+    def show(v):
+        return repr(v)[:80]
+    n = 0
+    ctx.fn("testdata_generator.py:generate_for_type (composite kinds, folded)")
+    for label, ty in cases:
+        it = Interp(tree, name=P_TD)
+        f = it.globals.get("generate_for_type")
+        if f is None:
+            raise AnalysisError(f"{P_TD}: generate_for_type not found")
+        spec = Record("LSPModel", {"structures": [S], "typeAliases": [], "enumerations": [], "requests": [], "notifications": []})
+        try:
+            out = list(it.iterate(f(ty, spec, [])))
+        except Raised as e:
+            ctx.fail("composite-vector-label", f"type={label}", f"generate_for_type raises {e.exc_name} for {label}", P_TD, None)
+            continue
+        n += 1
+        pairs = [p_ for p_ in out if isinstance(p_, tuple) and len(p_) == 2]
+        ctx.check(any(lb is True and valid(v, ty) for lb, v in pairs), "composite-has-valid-vector", f"type={label}",
+                  f"no vector labelled True that is a valid {label} is generated", P_TD, None)
+        bad = [(lb, v) for lb, v in pairs if bool(lb) != valid(v, ty)]
+        ctx.check(not bad, "composite-vector-label", f"type={label}",
+                  f"{len(bad)} of {len(pairs)} vectors generated for {label} carry the wrong label, e.g. "
+                  f"{show(bad[0][1]) if bad else ''} labelled {bad[0][0] if bad else ''}", P_TD, None,
+                  sample={"type": label, "vectors": len(pairs)})
+    ctx.floor("composite types folded", n, 8)
+
+
 _run_c17 = run
 
 
@@ -719,6 +835,7 @@ def run(ctx: Ctx):  # noqa: F811
     _fold_generate(ctx)
     _testdata_flatten(ctx)
     _fold_enum_labels(ctx)
+    _fold_composite_labels(ctx)
     # labels are computed against the model being generated from: no lookup cache / memo may carry definitions of an
     # earlier model into the next run
     from ..genlint import cross_run_state, Index as _Index
